@@ -43,6 +43,9 @@ fn run_suite<S: ShortGroupSignatureScheme>(em: &mut Emitter, base: &mut Rng, sui
         if let Some(line) = create_line(&scn.credentials, &scn.schema) {
             em.op(line, "true");
         }
+        if let Some((line, got)) = create_proofs_line(&scn.credentials, &scn.schema, Some(&p)) {
+            em.op(line, got);
+        }
         em.op(plan_line(&scn.schema, &p, suite), plan_class(&p, &scn.schema, &scn.nonce).0);
         // the same statements listed in other orders (reversed: predicates before signatures, range before its
         // commitment; rotated): the order of a schema's statement list carries no meaning
@@ -69,6 +72,9 @@ fn run_suite<S: ShortGroupSignatureScheme>(em: &mut Emitter, base: &mut Rng, sui
                         em.violation("honest-verify-rejected:statement-order", format!("{}: honest presentation rejected when the statements are listed in {} order: {}", suite, oname, mix.describe()), json!({"suite": suite, "order": oname, "schema": serde_json::to_value(&sch).unwrap_or_default(), "mix": mix.describe()}));
                     }
                     em.op(plan_line(&sch, &q, suite), plan_class(&q, &sch, &scn.nonce).0);
+                    if let Some((line, got)) = create_proofs_line(&scn.credentials, &sch, Some(&q)) {
+                        em.op(line, got);
+                    }
                 }
                 o => em.violation("honest-create-failed:statement-order", format!("{}: Presentation::create {} when the statements are listed in {} order: {}", suite, o.class(), oname, mix.describe()), json!({"suite": suite, "order": oname, "mix": mix.describe()})),
             }
